@@ -42,9 +42,19 @@ func (in *Interp) syncOf(p Ptrv) *SyncObj {
 	return s
 }
 
+// touch records a write-mode access to a sync object by the running transition.
 func (in *Interp) touch(id int) {
 	if in.touched != nil {
 		in.touched[id] = true
+	}
+}
+
+// touchRead records a read-mode access (commutes with other read-mode accesses).
+func (in *Interp) touchRead(id int) {
+	if in.touched != nil {
+		if _, ok := in.touched[id]; !ok {
+			in.touched[id] = false
+		}
 	}
 }
 
@@ -120,6 +130,9 @@ func (in *Interp) visibleKind(th *Thread) (kind string, call *ssa.CallCommon) {
 		}
 		if f := x.Call.StaticCallee(); f != nil && f.Name() == "vYield" {
 			return "yield", &x.Call
+		}
+		if f := x.Call.StaticCallee(); f != nil && f.Name() == "vQuiesce" {
+			return "quiesce", &x.Call
 		}
 	}
 	return "", nil
@@ -214,7 +227,8 @@ func (in *Interp) sendReady(c *ChanObj) bool {
 	if len(c.buf) < c.cap {
 		return true
 	}
-	return len(in.receiversOn(c)) > 0
+	// rendezvous (or hand-over on an empty buffered channel): a receiver is blocked
+	return len(c.buf) == 0 && len(in.receiversOn(c)) > 0
 }
 
 // recvReady: data buffered or closed. (Rendezvous is initiated by senders;
@@ -244,6 +258,14 @@ func (in *Interp) enabled(th *Thread) bool {
 	case "":
 		return true
 	case "yield":
+		return true
+	case "quiesce":
+		// enabled only when every other thread has finished or is blocked
+		for _, t := range in.threads {
+			if t != th && !t.done && in.enabled(t) {
+				return false
+			}
+		}
 		return true
 	case "atomic":
 		return true
@@ -289,6 +311,27 @@ func (in *Interp) enabled(th *Thread) bool {
 	return true
 }
 
+func (in *Interp) hasUnbuffered(th *Thread) bool {
+	fr := in.curFrame(th)
+	chk := func(v ssa.Value) bool {
+		c := in.get(fr, v).(ChanV).C
+		return c != nil && c.cap == 0
+	}
+	switch x := in.nextInstr(th).(type) {
+	case *ssa.Send:
+		return chk(x.Chan)
+	case *ssa.UnOp:
+		return chk(x.X)
+	case *ssa.Select:
+		for _, st := range x.States {
+			if chk(st.Chan) {
+				return true
+			}
+		}
+	}
+	return false
+}
+
 // opObjs: the sync objects of th's pending visible operation.
 func (in *Interp) opObjs(th *Thread) []int {
 	kind, call := in.visibleKind(th)
@@ -315,6 +358,8 @@ func (in *Interp) opObjs(th *Thread) []int {
 		if p.Cell != nil {
 			return []int{p.Cell.id}
 		}
+	case "quiesce":
+		return []int{-1000000}
 	case "yield":
 		if len(call.Args) > 0 {
 			if t := in.get(fr, call.Args[0]).(BVv).T; t.IsConst() {
@@ -382,7 +427,117 @@ func (in *Interp) selectResult(x *ssa.Select, idx int, val Value, ok bool) Value
 	return res
 }
 
+// symmetric reports whether two blocked threads are interchangeable: same code
+// position in every frame and identical local state.
+func (in *Interp) symmetric(a, b *Thread) bool {
+	if len(a.frames) != len(b.frames) {
+		return false
+	}
+	for i := range a.frames {
+		fa, fb := a.frames[i], b.frames[i]
+		if fa.fn != fb.fn || fa.block != fb.block || fa.pc != fb.pc || len(fa.env) != len(fb.env) || len(fa.defers) != len(fb.defers) {
+			return false
+		}
+		for k, va := range fa.env {
+			vb, ok := fb.env[k]
+			if !ok || !in.sameValue(va, vb) {
+				return false
+			}
+		}
+	}
+	return true
+}
+
+func (in *Interp) sameValue(a, b Value) bool {
+	switch x := a.(type) {
+	case BVv:
+		y, ok := b.(BVv)
+		return ok && x.T == y.T
+	case Boolv:
+		y, ok := b.(Boolv)
+		return ok && x.T == y.T
+	case Ptrv:
+		y, ok := b.(Ptrv)
+		return ok && x.Cell == y.Cell && x.Bobj == y.Bobj && x.Idx == y.Idx
+	case ChanV:
+		y, ok := b.(ChanV)
+		return ok && x.C == y.C
+	case MapV:
+		y, ok := b.(MapV)
+		return ok && x.M == y.M
+	case FuncV:
+		y, ok := b.(FuncV)
+		if !ok || x.Fn != y.Fn || len(x.Bindings) != len(y.Bindings) {
+			return false
+		}
+		for i := range x.Bindings {
+			if !in.sameValue(x.Bindings[i], y.Bindings[i]) {
+				return false
+			}
+		}
+		return true
+	case StrV:
+		y, ok := b.(StrV)
+		return ok && x.Arr == y.Arr && x.Off == y.Off && x.Len == y.Len
+	case BytesV:
+		y, ok := b.(BytesV)
+		return ok && x.Obj == y.Obj && x.Off == y.Off && x.Len == y.Len
+	case SliceV:
+		y, ok := b.(SliceV)
+		return ok && x == y
+	case IfaceV:
+		y, ok := b.(IfaceV)
+		if !ok || (x.T == nil) != (y.T == nil) {
+			return false
+		}
+		return x.T == nil || (types.Identical(x.T, y.T) && in.sameValue(x.V, y.V))
+	case StructV:
+		y, ok := b.(StructV)
+		if !ok || len(x.F) != len(y.F) {
+			return false
+		}
+		for i := range x.F {
+			if !in.sameValue(x.F[i], y.F[i]) {
+				return false
+			}
+		}
+		return true
+	case TupleV:
+		y, ok := b.(TupleV)
+		if !ok || len(x) != len(y) {
+			return false
+		}
+		for i := range x {
+			if !in.sameValue(x[i], y[i]) {
+				return false
+			}
+		}
+		return true
+	case nil:
+		return b == nil
+	}
+	return false
+}
+
 func (in *Interp) pickThread(ts []*Thread) *Thread {
+	if len(ts) == 1 {
+		return ts[0]
+	}
+	// symmetry reduction: keep one representative of interchangeable threads
+	var reps []*Thread
+	for _, t := range ts {
+		dup := false
+		for _, r := range reps {
+			if in.symmetric(r, t) {
+				dup = true
+				break
+			}
+		}
+		if !dup {
+			reps = append(reps, t)
+		}
+	}
+	ts = reps
 	if len(ts) == 1 {
 		return ts[0]
 	}
@@ -390,7 +545,9 @@ func (in *Interp) pickThread(ts []*Thread) *Thread {
 	for i := range guards {
 		guards[i] = in.ts.True
 	}
+	in.schedChoice = true
 	k := in.choose(guards)
+	in.schedChoice = false
 	return ts[k]
 }
 
@@ -499,7 +656,9 @@ func (in *Interp) execSelect(th *Thread, fr *Frame, x *ssa.Select) bool {
 		for i := range guards {
 			guards[i] = in.ts.True
 		}
+		in.schedChoice = true
 		pick = ready[in.choose(guards)]
+		in.schedChoice = false
 	}
 	st := x.States[pick]
 	c := in.get(fr, st.Chan).(ChanV).C
@@ -628,12 +787,16 @@ func (in *Interp) schedule() *Thread {
 
 type SleepEnt struct {
 	Tid     int
-	Touched []int // nil => universal (dependent with everything)
+	Touched []int // objects accessed in write mode
+	Reads   []int // objects accessed in read mode only
 	All     bool
 }
 
 func (in *Interp) pickSchedule(en []*Thread) *Thread {
 	sort.Slice(en, func(i, j int) bool { return en[i].id < en[j].id })
+	if in.cfg.Preempt >= 0 {
+		return in.pickBounded(en)
+	}
 	if in.replaying() {
 		d := in.prefix[in.pos]
 		if d.Kind != 's' {
@@ -657,7 +820,18 @@ func (in *Interp) pickSchedule(en []*Thread) *Thread {
 	// fresh decision
 	var cands []*Thread
 	for _, t := range en {
-		if !in.asleep(t) {
+		if in.asleep(t) {
+			continue
+		}
+		// symmetry: of interchangeable threads only the lowest id is scheduled
+		dup := false
+		for _, r := range cands {
+			if in.symmetric(r, t) {
+				dup = true
+				break
+			}
+		}
+		if !dup {
 			cands = append(cands, t)
 		}
 	}
@@ -705,8 +879,14 @@ func (in *Interp) asleep(t *Thread) bool {
 func (in *Interp) beginTransition(th *Thread, sleep []SleepEnt, rest []int, own bool) {
 	in.trans = &transState{tid: th.id, sleep: sleep, rest: rest, own: own, decIdx: len(in.taken) - 1, startDecisions: len(in.taken)}
 	in.touched = map[int]bool{}
-	for _, o := range in.opObjs(th) {
-		in.touched[o] = true
+	if k, _ := in.visibleKind(th); k == "rlock" {
+		for _, o := range in.opObjs(th) {
+			in.touchRead(o)
+		}
+	} else {
+		for _, o := range in.opObjs(th) {
+			in.touched[o] = true
+		}
 	}
 	if !th.started {
 		th.started = true
@@ -730,19 +910,47 @@ func (in *Interp) finishTransition(aborted bool) {
 		return
 	}
 	in.trans = nil
+	// arriving at a channel operation registers the thread as a waiter, which
+	// other threads' sends/receives observe (hand-over vs buffering): the
+	// objects of the operation the thread is now positioned at belong to the
+	// transition as well.
+	if tr.tid < len(in.threads) && in.touched != nil {
+		if th := in.threads[tr.tid]; !th.done && len(th.frames) > 0 {
+			func() {
+				defer func() { recover() }()
+				switch k, _ := in.visibleKind(th); k {
+				case "send", "recv", "select":
+					// observable only if the thread now waits (blocked), or an
+					// unbuffered channel is involved (rendezvous partners look
+					// for positioned threads)
+					if !in.enabled(th) || in.hasUnbuffered(th) {
+						for _, o := range in.opObjs(th) {
+							in.touched[o] = true
+						}
+					}
+				}
+			}()
+		}
+	}
 	touched := make([]int, 0, len(in.touched))
-	for o := range in.touched {
-		touched = append(touched, o)
+	var reads []int
+	for o, w := range in.touched {
+		if w {
+			touched = append(touched, o)
+		} else {
+			reads = append(reads, o)
+		}
 	}
 	sort.Ints(touched)
+	sort.Ints(reads)
 	// data-dependent transition (forked on solver decisions): universal
 	all := aborted
 	for _, d := range in.taken[tr.startDecisions:] {
-		if d.Kind != 's' {
+		if d.Kind != 's' && !d.Sched {
 			all = true
 		}
 	}
-	ent := SleepEnt{Tid: tr.tid, Touched: touched, All: all}
+	ent := SleepEnt{Tid: tr.tid, Touched: touched, Reads: reads, All: all}
 	// queue next sibling
 	if tr.own && len(tr.rest) > 0 {
 		pre := make([]Decision, tr.decIdx)
@@ -761,7 +969,7 @@ func (in *Interp) finishTransition(aborted bool) {
 		if e.Tid == tr.tid {
 			continue
 		}
-		if e.All || all || intersects(e.Touched, touched) {
+		if e.All || all || intersects(e.Touched, touched) || intersects(e.Touched, reads) || intersects(e.Reads, touched) {
 			continue
 		}
 		// the sleeping thread's pending op must still be the same kind of op;
@@ -785,4 +993,57 @@ func intersects(a, b []int) bool {
 		}
 	}
 	return false
+}
+
+// pickBounded: context-bounded scheduling. The thread that ran last keeps
+// running while it is enabled unless a preemption is spent; at most
+// cfg.Preempt preemptions per execution. No sleep sets (complete within the
+// bound).
+func (in *Interp) pickBounded(en []*Thread) *Thread {
+	prev := in.cur
+	prevEnabled := false
+	if prev != nil && !prev.done {
+		for _, t := range en {
+			if t == prev {
+				prevEnabled = true
+			}
+		}
+	}
+	if in.replaying() {
+		d := in.prefix[in.pos]
+		if d.Kind != 's' {
+			panic(abortf("INTERNAL", "replay divergence: expected %c got schedule at decision %d", d.Kind, in.pos))
+		}
+		in.pos++
+		in.taken = append(in.taken, d)
+		for _, t := range en {
+			if t.id == d.Pick {
+				if prevEnabled && t != prev {
+					in.preempts++
+				}
+				in.schedLog = append(in.schedLog, t.id)
+				return t
+			}
+		}
+		panic(abortf("INTERNAL", "replay divergence: scheduled thread %d not enabled", d.Pick))
+	}
+	var cands []*Thread
+	if prevEnabled {
+		cands = append(cands, prev)
+		if in.preempts < in.cfg.Preempt {
+			for _, t := range en {
+				if t != prev {
+					cands = append(cands, t)
+				}
+			}
+		}
+	} else {
+		cands = en
+	}
+	for _, t := range cands[1:] {
+		in.newWork = append(in.newWork, WorkItem{Prefix: clonePrefix(in.taken, Decision{Kind: 's', Pick: t.id}), Model: in.model})
+	}
+	in.taken = append(in.taken, Decision{Kind: 's', Pick: cands[0].id})
+	in.schedLog = append(in.schedLog, cands[0].id)
+	return cands[0]
 }
